@@ -305,6 +305,8 @@ def h_race(t, part):
             served.append((sid_, a))
         w.s.on('ev', on_ev)
         tasks.append(miniloop.create_task(w.eio.recv('e1', w.P(packet.EVENT, data=['ev', 1]).encode()), 'bystander-event'))
+    if part.get('bystander_disconnect'):
+        tasks.append(miniloop.create_task(w.eio.recv('e1', w.P(packet.DISCONNECT).encode()), 'bystander-disconnect'))
     try:
         loop.drain()
     except miniloop.Deadlock as ex:
@@ -316,6 +318,12 @@ def h_race(t, part):
     excs = [(tk.name, tk.exc) for tk in tasks if tk.exc is not None] + [('engine.io-contained', x[1]) for x in w.eio.contained]
     if excs:
         return Fail('lifecycle:race:exception:%s' % type(excs[0][1]).__name__, repr(excs))
+    if part.get('bystander_disconnect'):
+        mine_b = [c for c in log['disconnect'] if c[0] == other]
+        if len(mine_b) != 1 or w.s.manager.is_connected(other, '/'):
+            return Fail('lifecycle:race:bystander-disconnect-lost', 'another client\'s DISCONNECT during the termination: '
+                        'handler calls %r, still connected %r' % (mine_b, w.s.manager.is_connected(other, '/')))
+        return None
     if part.get('bystander_event') and served != [(other, (1,))]:
         return Fail('lifecycle:race:bystander-event-lost', 'an event of another client during the termination: handled %r; trace %r' % (
             served, loop.trace))
@@ -373,6 +381,8 @@ def race_parts(tier):
              ['server.disconnect', 'server.disconnect-other-namespace'], ['client-DISCONNECT', 'client-DISCONNECT']]
     out = [{'causes': p, 'always_connect': False} for p in pairs]
     out += [{'causes': [c], 'always_connect': False, 'bystander_event': True}
+            for c in ('server.disconnect', 'client-DISCONNECT', 'transport-loss')]
+    out += [{'causes': [c], 'always_connect': False, 'bystander_disconnect': True}
             for c in ('server.disconnect', 'client-DISCONNECT', 'transport-loss')]
     if tier != 'quick':
         out += [{'causes': ['server.disconnect', 'client-DISCONNECT', 'transport-loss'], 'always_connect': False},
